@@ -275,3 +275,21 @@ def run(ini_text, sim_seed, max_events, monitor, keep_workdir=False):
             logging.getLogger("jellyfysh").removeHandler(ctx._catcher)
         if not keep_workdir:
             shutil.rmtree(workdir, ignore_errors=True)
+
+
+def run_plain(ini_text, sim_seed):
+    """Uninstrumented run to the end of run (for statistics).  Returns the work directory with the output files; the
+    caller removes it."""
+    from jellyfysh.base.exceptions import EndOfRun
+    workdir = tempfile.mkdtemp(prefix="jfrun_")
+    ctx = build(ini_text, sim_seed, workdir)
+    try:
+        with contextlib.redirect_stdout(io.StringIO()):
+            try:
+                ctx.mediator.run()
+            except EndOfRun:
+                pass
+            ctx.mediator.post_run()
+    finally:
+        logging.getLogger("jellyfysh").removeHandler(ctx._catcher)
+    return workdir, ctx
